@@ -1184,6 +1184,61 @@ example : let r := flowRun std ⟨true, 0, [], 4⟩ [.pkt ⟨true, 0, [81, 85, 7
 
 end Flow
 
+/-! ### who a stanza comes from: a stream is (session id, peer) (round E) -/
+section Sender
+
+/-- a close request closes the stream iff it names it (session id AND sender); any other close
+request is answered item-not-found and changes nothing -/
+theorem C15_close_request_only_from_peer (s : RState) :
+    closeRequest s false = (s, .itemNotFound) ∧
+    (s.live = true → closeRequest s true = (Ibb.close s, .ack)) := by
+  constructor
+  · simp [closeRequest]
+  · intro h; simp [closeRequest, h]
+
+/-- stanzas that do not name the stream — another session id, or the right session id from
+somebody who is not the stream's peer — can be removed from ANY history (packets, reads, limit
+changes, from any state): the receiver ends in the same state, the same packets are acknowledged
+and the reader gets the same bytes.  Nobody but the peer can put a byte into the stream. -/
+theorem C15_foreign_stanzas_inert (cd : Codec) : ∀ (ops : List FOp) (s : RState),
+    (flowRun cd s (dropForeign ops)).st = (flowRun cd s ops).st ∧
+    (flowRun cd s (dropForeign ops)).acked = (flowRun cd s ops).acked ∧
+    (flowRun cd s (dropForeign ops)).delivered = (flowRun cd s ops).delivered := by
+  intro ops
+  induction ops with
+  | nil => intro s; exact ⟨rfl, rfl, rfl⟩
+  | cons o os ih =>
+    intro s
+    cases o with
+    | pkt p =>
+      cases hk : p.known with
+      | true =>
+        have := ih (recv cd s p).1
+        simp only [dropForeign, hk, if_true, flowRun]
+        exact ⟨this.1, by rw [this.2.1], this.2.2⟩
+      | false =>
+        have hr := C15_refuse_unknown_or_closed cd s p (Or.inl hk)
+        have := ih s
+        simp only [dropForeign, hk, flowRun, hr]
+        exact ⟨this.1, by simpa using this.2.1, this.2.2⟩
+    | read n =>
+      have := ih (Ibb.read s n).1
+      simp only [dropForeign, flowRun]
+      exact ⟨this.1, this.2.1, by rw [this.2.2]⟩
+    | setMax n bs => simpa [dropForeign, flowRun] using ih (setMax s n bs)
+
+/-- a third party's packet with the expected number is refused, the peer's is then acknowledged -/
+example : (flowRun std ⟨true, 0, [], 0⟩ [.pkt ⟨false, 0, [90, 88, 90, 112]⟩, .pkt ⟨true, 0, [81, 85, 74, 68]⟩, .read 8]).replies =
+    [.itemNotFound, .ack] := by decide
+
+/-- PROBE FACT: the real handler, on a stream opened by the peer, answers a data packet and a close
+request that name the stream's session id exactly as the model does for every kind of sender: the
+peer itself and a stanza without `from` are the stream's; another resource of the peer's account,
+its bare address, a third party and the server are not (item-not-found, the stream is untouched) -/
+theorem C15_sender_probe : Generated.C15.senderProbe = some ((List.range 6).map senderModel) := by decide
+
+end Sender
+
 /-! ### the executable codec instance: spot checks -/
 example : std.dec (std.enc [1, 2, 3, 4, 5]) = some [1, 2, 3, 4, 5] := by decide
 example : std.dec [81, 85, 74, 68, 10, 82, 65, 61, 61] = some [65, 66, 67, 68] := by decide
